@@ -199,3 +199,64 @@ package keeper
 //@             && Pledge[sps[j].Creator].TotalStorage - Pledge[sps[j].Creator].UsedStorage >= order.Size_ && (13 & sps[j].Status) == 13 && sps[j].Reputation >= 8000)
 //@   loop L1 invariant -1 <= rangeindex && rangeindex < len(sps) && len(ignoreList) == rangeindex + 1
 //@   loop L1 invariant forall j int :: 0 <= j && j <= rangeindex ==> contains(ignoreList, sps[j].Creator)
+
+// base(c): the version an update names as its base - the part of the commit field before the separator, or the whole field
+//@ pure baseCommit(c string, parts Slice_Str) string = (strcontains(c, "|") ? parts[0] : c)
+//@ pure newCommit(c string, parts Slice_Str) string = (strcontains(c, "|") ? parts[1] : c)
+
+// Store: a signed proposal creates an order for a new model, for an update of an existing model or for a force-push.
+//@ func (msgServer) Store(goCtx, msg) (resp, err)
+//@   requires msg != nil
+//@   requires forall c string :: has(Node, c) ==> Node[c].Creator == c
+//@   requires forall k bytes :: rawhas(Node, k) ==> k == keyof(Node, rawget(Node, k).Creator)
+//@   requires forall c string :: has(Pledge, c) ==> i64(Pledge[c].TotalStorage - Pledge[c].UsedStorage) == Pledge[c].TotalStorage - Pledge[c].UsedStorage
+//@   requires forall i int :: 0 <= i && i <= MaxUint64 && has(Order, i) ==> Order[i].Id == i && len(Order[i].Shards) < 2147483648
+//@   requires [C16.inv.order] forall i int :: 0 <= i && i <= MaxUint64 && has(Order, i) ==> i < effOrderCount(get(OrderCount))
+//@   requires [C16.inv.shard] forall i int :: 0 <= i && i <= MaxUint64 && has(Shard, i) ==> Shard[i].Id == i && i < effShardCount(get(ShardCount))
+//@   requires effShardCount(get(ShardCount)) <= MaxUint64 - 4294967296 && effOrderCount(get(OrderCount)) < MaxUint64
+//@   requires forall h int :: 0 <= h && h <= MaxUint64 && has(TimeoutOrder, h) ==> TimeoutOrder[h].Height == h
+//@   requires forall h int :: 0 <= h && h <= MaxUint64 && has(ExpiredData, h) ==> ExpiredData[h].Height == h
+//@   requires forall c string :: has(Metadata, c) ==> Metadata[c].DataId == c && Metadata[c].CreatedAt + Metadata[c].Duration <= MaxUint64
+//@   requires [C11.sched.once] forall c string, h int, i int, j int :: 0 <= h && h <= MaxUint64 && has(ExpiredData, h) && 0 <= i && i < j && j < len(ExpiredData[h].Data) ==> !(ExpiredData[h].Data[i] == c && ExpiredData[h].Data[j] == c)
+//@   modifies *
+//@   ensures [C09.store.auth] err == nil && old(has(Metadata, msg.Proposal.DataId)) ==> requestSignedBy(msg.Proposal.Owner)
+//@       && (msg.Proposal.Owner == old(Metadata[msg.Proposal.DataId].Owner) || contains(old(Metadata[msg.Proposal.DataId].ReadwriteDids), msg.Proposal.Owner))
+//@   ensures [C09.store.signed] err == nil ==> requestSignedBy(msg.Proposal.Owner)
+//@   ensures [C09.store.frame] forall d string :: d != msg.Proposal.DataId ==> Metadata[d] == old(Metadata[d]) && (has(Metadata, d) <==> old(has(Metadata, d)))
+//@   ensures [C09.store.keep] err == nil && old(has(Metadata, msg.Proposal.DataId)) ==> has(Metadata, msg.Proposal.DataId)
+//@       && Metadata[msg.Proposal.DataId].Owner == old(Metadata[msg.Proposal.DataId].Owner) && Metadata[msg.Proposal.DataId].Commits == old(Metadata[msg.Proposal.DataId].Commits)
+//@       && Metadata[msg.Proposal.DataId].ReadwriteDids == old(Metadata[msg.Proposal.DataId].ReadwriteDids) && Metadata[msg.Proposal.DataId].ReadonlyDids == old(Metadata[msg.Proposal.DataId].ReadonlyDids)
+//@   ensures [C16.store.base] err == nil && old(has(Metadata, msg.Proposal.DataId)) ==>
+//@       baseCommit(msg.Proposal.CommitId, strsplit(msg.Proposal.CommitId, "|")) == old(Metadata[msg.Proposal.DataId].Commit)
+//@   ensures [C16.store.inflight] err == nil && old(has(Metadata, msg.Proposal.DataId)) ==> old(Metadata[msg.Proposal.DataId].Status) == MetaComplete
+//@       && old(has(Order, Metadata[msg.Proposal.DataId].OrderId)) && old(Order[Metadata[msg.Proposal.DataId].OrderId].Status) == OrderCompleted
+//@   ensures [C16.store.id] err == nil ==> resp != nil && resp.OrderId == old(effOrderCount(get(OrderCount))) && !old(has(Order, now(resp.OrderId))) && has(Order, resp.OrderId)
+//@       && effOrderCount(get(OrderCount)) == resp.OrderId + 1
+//@   ensures [C12.store.timeout] err == nil ==> Order[resp.OrderId].Timeout >= 1 && H + Order[resp.OrderId].Timeout <= MaxUint64
+//@   ensures [C12.store.sched] err == nil && len(Order[resp.OrderId].Shards) > 0 ==> has(TimeoutOrder, u64(H + Order[resp.OrderId].Timeout))
+//@       && contains(TimeoutOrder[u64(H + Order[resp.OrderId].Timeout)].OrderList, resp.OrderId)
+//@   ensures [C10.store.sponsor] err == nil && msg.Proposal.PaymentDid != "" ==> old(has(PaymentAddress, msg.Proposal.PaymentDid))
+//@       && msg.Creator == old(PaymentAddress[msg.Proposal.PaymentDid].Address)
+//@   ensures [C10.store.owner] err == nil && msg.Proposal.PaymentDid == "" ==>
+//@       (old(has(Did, "cosmos:" + ChainID + ":" + msg.Creator)) && old(Did["cosmos:" + ChainID + ":" + msg.Creator].Did) == msg.Proposal.Owner)
+//@       || actsFor(msg.Creator, msg.Proposal.Provider, old(has(Node, msg.Proposal.Provider)), old(Node[msg.Proposal.Provider]))
+//@   ensures [C04.store.charge] err == nil && old(msg.Proposal.Size_) <= MaxInt64 && msg.Proposal.Duration <= MaxInt64 ==>
+//@       Order[resp.OrderId].Amount.Denom == BondDenom
+//@       && Order[resp.OrderId].Amount.Amount == div(1000000000000 * Order[resp.OrderId].Size_ * Order[resp.OrderId].Replica * Order[resp.OrderId].Duration, 1000000000000000000)
+//@            + (mod(1000000000000 * Order[resp.OrderId].Size_ * Order[resp.OrderId].Replica * Order[resp.OrderId].Duration, 1000000000000000000) == 0 ? 0 : 1)
+//@       && (addr(old(PaymentAddress[(msg.Proposal.PaymentDid != "" ? msg.Proposal.PaymentDid : msg.Proposal.Owner)].Address)) != moduleAddr("order") ==>
+//@             bal(moduleAddr("order"), BondDenom) == old(bal(moduleAddr("order"), BondDenom)) + Order[resp.OrderId].Amount.Amount)
+//@   ensures [C04.store.payer] err == nil ==> old(has(PaymentAddress, (msg.Proposal.PaymentDid != "" ? msg.Proposal.PaymentDid : msg.Proposal.Owner)))
+//@       && (addr(old(PaymentAddress[(msg.Proposal.PaymentDid != "" ? msg.Proposal.PaymentDid : msg.Proposal.Owner)].Address)) != moduleAddr("order") ==>
+//@           bal(addr(old(PaymentAddress[(msg.Proposal.PaymentDid != "" ? msg.Proposal.PaymentDid : msg.Proposal.Owner)].Address)), BondDenom)
+//@             == old(bal(addr(PaymentAddress[(msg.Proposal.PaymentDid != "" ? msg.Proposal.PaymentDid : msg.Proposal.Owner)].Address), BondDenom)) - Order[resp.OrderId].Amount.Amount)
+//@   ensures [C13.store.shards] err == nil ==> forall j int :: 0 <= j && j < len(Order[resp.OrderId].Shards) ==> has(Shard, Order[resp.OrderId].Shards[j])
+//@       && Shard[Order[resp.OrderId].Shards[j]].OrderId == resp.OrderId
+//@   ensures [C15.store.replicas] err == nil && len(Order[resp.OrderId].Shards) > 0 ==> len(Order[resp.OrderId].Shards) == Order[resp.OrderId].Replica
+//@   loop L1 invariant -1 <= rangeindex && rangeindex < len(meta.ReadwriteDids)
+//@   loop L1 invariant forall j int :: 0 <= j && j <= rangeindex ==> meta.ReadwriteDids[j] != sigDid
+//@   loop L2 invariant -1 <= rangeindex
+//@   loop L2 invariant isProvider ==> contains(provider.TxAddresses, msg0.Creator)
+//@   loop L3 invariant -1 <= rangeindex && rangeindex < len(sps) && len(spCreators) == rangeindex + 1
+//@   loop L3 invariant forall j int :: 0 <= j && j <= rangeindex ==> spCreators[j] == sps[j].Creator
+//@   loop L4 invariant -1 <= rangeindex && rangeindex < len(order.Shards)
